@@ -353,6 +353,17 @@ class State:
             self.trace.append(why)
 
 
+_LABEL_MEMBERS = None
+
+
+def label_members(z):
+    """set(label) for a compound node label (clique): an uninterpreted function of the label"""
+    global _LABEL_MEMBERS
+    if _LABEL_MEMBERS is None:
+        _LABEL_MEMBERS = z3.Function("label_members", Atom, set_sort(Atom))
+    return _LABEL_MEMBERS(z)
+
+
 class Env(dict):
     """local environment of the function under verification.  `aliases` maps a local name used by the sidecar contract to the name
     the current source gives the local in the same position (see Executor.local_aliases): a contract written against `ancestors_list`
@@ -2410,6 +2421,14 @@ class Executor:
         if isinstance(recv, Obj):
             # 1. contract on a repo method  2. library contract  3. inline repo source
             if recv.cls.startswith("super:"):
+                # the next class in the receiver's MRO has a sidecar contract for this method: the call is checked against it
+                tgt = getattr(recv, "target", None)
+                mro = self.classes.get(tgt.cls, {}).get("mro", []) if tgt is not None else []
+                after = recv.cls[len("super:"):]
+                if after in mro and mro.index(after) + 1 < len(mro):
+                    q = f"{mro[mro.index(after) + 1]}.{name}"
+                    if q in REGISTRY:
+                        return self.apply_contract(REGISTRY[q], tgt, args, kwargs, st)
                 r = self.lib.call_method(self, recv.cls, recv, name, args, kwargs, st, node)
                 if r is not NotImplemented:
                     return r
@@ -2608,6 +2627,9 @@ class Executor:
         if name in ("set", "frozenset", "list", "tuple", "iter"):
             if not args:
                 return Coll(name, None, None, items=[])
+            if name in ("set", "frozenset") and isinstance(args[0], Scalar) and args[0].z.sort() == Atom and getattr(args[0], "pytype", None) == "clique":
+                # a node label that is itself a collection of names (a clique of a cluster graph): its member set is a function of the label
+                return Coll(name, Atom, label_members(args[0].z), nodup=True)
             c = self.as_coll(args[0], st)
             kind = name if name != "iter" else "iter"
             items = c.items if name in ("list", "tuple") and c.kind in ("list", "tuple") else None
